@@ -1,14 +1,60 @@
 import TrucModel.Proofs.Memory
+import TrucModel.Proofs.Reachable
+import TrucModel.Props.MachExample
 /-
   C05 — Converting to the next variant keeps, adds and returns the right values.
-  Goal (full statement): for every well-formed definition, adjacent pair, conversion form and state,
-  `call (convFn …)` ends without machine error in a record whose carried-over fields hold what they
-  held, whose added fields hold the supplied values, returning the removed fields' values; chains by
-  induction.  Proved so far (`_partial`, at the level of the buffer operations the generated
-  conversion performs, in its program order: read removed fields → bit copy → store added fields):
+  `C05_convert`: full statement for one conversion, all four forms; `C05_chain`: every record reached
+  by any chain of conversions (and constructors, and writes) from any variant satisfies the invariant
+  that `C05_convert` needs, so the statement holds at every step of every chain.  The `_partial`
+  lemmas below them are the buffer-level facts the proof rests on (kept for reference).
 -/
 namespace Truc.Mach
 open Truc.Gen
+
+/-- **one conversion, any of the four forms.** For consecutive variants whose field lists are
+    well-formed (`ConvWF`: C01/C02/C12 for both variants + how they relate), from a record of the old
+    variant satisfying the record invariant: the generated conversion runs without machine error; in
+    the new record every carried-over field is found exactly as before, every written added field
+    holds the value supplied; the forms that return removed data hand back every removed field's
+    value (and destroy nothing), the other forms destroy exactly the removed droppable values; and the
+    new record satisfies the invariant again. -/
+theorem C05_convert (dr : String → Bool) (cap : Nat) (sp0 sp : Spec) (uninit andOut : Bool)
+    (hw : ConvWF cap sp0.data sp.data sp.minus sp.plus) (b0 : Buf) (hcap : b0.cap = cap) (hinv : RecInv dr b0 sp0.data)
+    (hrec : "record" ∉ sp.minus.map (·.name)) (hpod : ∀ d ∈ sp.plus, d.uninit = true → dr d.ty = false)
+    (hz : ∀ p ∈ sp.plus, p.size = 0 → dr p.ty = true)
+    (vals : List Val) (hl : vals.length = (plusWritten sp uninit).length)
+    (hty : ∀ p ∈ (plusWritten sp uninit).zip vals, p.2.ty = p.1.ty) :
+    ∃ b2 st, call dr cap (convFn sp uninit andOut)
+        { from_ := some b0, fromGlue := some sp0.data, args := [("plus", fieldsOf (plusWritten sp uninit) vals)] } = .ok st ∧
+      b2.cap = cap ∧
+      (if andOut then st.result = .struct ((sp.minus.map (·.name)).zip (minusVals sp b0)) (some b2) ∧ st.drops = []
+       else st.result = .record b2 ∧ st.drops = (minusVals sp b0).filter (fun v => dr v.ty)) ∧
+      (∀ p ∈ (plusWritten sp uninit).zip vals, b2.find p.1 = some (mkExt p)) ∧
+      (∀ d ∈ sp.data, d ∉ sp.plus → b2.find d = b0.find d) ∧
+      RecInv dr b2 sp.data :=
+  conv_ok dr cap sp0 sp uninit andOut hw b0 hcap hinv hrec hpod hz vals hl hty
+
+/-- **any chain.** Whatever sequence of constructor / conversion forms / writes produced a record of
+    variant `k` of a well-formed module, it has the right capacity and satisfies the invariant — so
+    `C05_convert` applies to it, at every step of every chain from the first to the last variant. -/
+theorem C05_chain (dr : String → Bool) (cap : Nat) (specs : List Spec) (hm : ModuleWF dr cap specs)
+    (k : Nat) (b : Buf) (h : Reach dr cap specs k b) : ∃ s, specs[k]? = some s ∧ b.cap = cap ∧ RecInv dr b s.data :=
+  reach_inv dr cap specs hm k b h
+
+/-- non-vacuity of `C05_convert` / `C05_chain`: a concrete well-formed module (`MachExample`), a record
+    built by its constructor, converted by the form that returns the removed data with an added field
+    written over the removed field's bytes — reachable, hence satisfying the invariant -/
+example : ∃ b, Reach Ex.dr 16 Ex.specs 1 b ∧ ∃ s, Ex.specs[1]? = some s ∧ RecInv Ex.dr b s.data := by
+  obtain ⟨b0, st0, hc0, hr0, hcap0, hinv0⟩ := ctorNew_inv Ex.dr 16 Ex.s0 Ex.wf0 [⟨5, "H"⟩, ⟨6, "P4"⟩] rfl (by decide)
+  have r0 : Reach Ex.dr 16 Ex.specs 0 b0 := Reach.new 0 Ex.s0 _ st0 b0 rfl rfl (by decide) hc0 hr0
+  obtain ⟨hcw, hrec, hz⟩ := Ex.moduleWF.conv 0 Ex.s0 Ex.s1 rfl rfl
+  obtain ⟨b2, st, hcall, _, hres, _, _, _⟩ := conv_ok Ex.dr 16 Ex.s0 Ex.s1 false true hcw b0 hcap0 hinv0 hrec (by decide) hz
+    [⟨7, "P8"⟩] rfl (by decide)
+  simp only [if_true] at hres
+  have r1 : Reach Ex.dr 16 Ex.specs 1 b2 :=
+    Reach.conv 0 Ex.s0 Ex.s1 b0 false true [⟨7, "P8"⟩] st b2 r0 rfl rfl rfl (by decide) hcall (Or.inr ⟨_, hres.1⟩)
+  obtain ⟨s, hs, _, hinv⟩ := reach_inv Ex.dr 16 Ex.specs Ex.moduleWF 1 b2 r1
+  exact ⟨b2, r1, s, hs, hinv⟩
 
 /-- reading a removed field out changes nothing for any other field -/
 theorem C05_reading_removed_keeps_others_partial (b : Buf) (removed carried : D)
